@@ -214,6 +214,11 @@ fn shape(ast: &RAst, index: &HashMap<String, usize>) -> Option<Shape> {
         match t {
             RAst::True => {}
             RAst::Var(n) => s.units.push(*index.get(n)?),
+            // a negative literal: "at most 0 of [v]"
+            RAst::Not(b) => match b.as_ref() {
+                RAst::Var(n) => s.cards.push((vec![*index.get(n)?], CntOp::AtMost, 0)),
+                _ => return None,
+            },
             RAst::CountConst(op, l, k) => {
                 let mut vs = Vec::new();
                 for f in l {
